@@ -271,8 +271,11 @@ ASMJIT_FAVOR_SIZE Error FuncFrame::finalize() noexcept {
   _sa_offset_from_sp = has_da ? FuncFrame::kTagInvalidOffset : v;
 
   // Calculate where the function arguments start relative to FP or user-provided register.
-  _sa_offset_from_sa = has_fp ? return_address_size + register_size      // Return address + frame pointer.
-                          : return_address_size + _push_pop_save_size; // Return address + all push/pop regs.
+  // With a link register (AArch64) FP is set right after the FP|LR pair is stored at the bottom of the save/restore
+  // area, so the arguments are above the whole push/pop area in that case as well.
+  _sa_offset_from_sa = (has_fp && !arch_traits.has_link_reg())
+    ? return_address_size + register_size        // Return address + frame pointer.
+    : return_address_size + _push_pop_save_size; // Return address + all push/pop regs.
 
   return Error::kOk;
 }
